@@ -42,11 +42,12 @@ pub uninterp spec fn v_position_after(s: &str, p: Position) -> Position;
 //@  fn position_after xbody
 //@end
 
+/// what a recognizer returns for a text (TokenRecognizer::recognize is user/generated code: its result is an uninterpreted,
+/// deterministic function of the recognizer and the text)
+pub uninterp spec fn rec_result<'i, TR: ?Sized>(r: &TR, input: &'i str) -> Option<&'i str>;
 //@trait LEX TokenRecognizer
-//@  raw
-//@  |     spec fn v_recognize(&self, input: &'i str) -> Option<&'i str>;
 //@  fn recognize ret=r xbody
-//@  |         ensures r == self.v_recognize(_input),
+//@  |         ensures r == rec_result(self, _input),
 //@end
 
 //@struct LEX Token
@@ -60,6 +61,7 @@ impl<'i, TR, TK> TokenIterator<'i, TR, TK> {
     pub closed spec fn v_recs(&self) -> Seq<(&'static TR, TK, bool)> { self.token_recognizers@ }
     pub closed spec fn v_index(&self) -> usize { self.index }
     pub closed spec fn v_finish(&self) -> bool { self.finish }
+    pub closed spec fn v_matched(&self) -> bool { self.matched }
     /// slicing the input at the lexing position is allowed (char boundary inside the input): established by `new`
     #[verifier::type_invariant]
     pub closed spec fn inv(&self) -> bool {
@@ -70,71 +72,126 @@ impl<'i, TR, TK> TokenIterator<'i, TR, TK> {
 impl<'i, TR, TK> TokenIterator<'i, TR, TK> {
     /// the text the recognizers are given: input[position.pos..]
     pub open spec fn tail(&self) -> &'i str { str_index(self.v_input(), RangeFrom { start: self.v_position().pos }) }
+    /// the iterator's bookkeeping agrees with its cursor: `matched` -- something among the entries already tried matched;
+    /// `finish` -- a cut lies behind the cursor
+    pub open spec fn book_ok(&self) -> bool {
+        &&& self.v_matched() == any_hit(self.v_recs(), self.tail(), self.v_index() as int)
+        &&& self.v_finish() == !tried(self.v_recs(), self.tail(), self.v_index() as int)
+    }
 }
 
-/// C06 "try in order": index of the first recognizer at or after `from` that recognises `tail`; recs.len() if none.
-pub open spec fn first_match<'i, TR: TokenRecognizer<'i>, TK>(recs: Seq<(&'static TR, TK, bool)>, tail: &'i str, from: int) -> int
-    decreases recs.len() - from,
+// ---- specification of the search, from the text of C06 and docs/src/lexers.md -------------------------------------------
+// "Expected tokens are sorted by priority.  A first match in a priority group will reduce further matches only to that
+// group."  "Most specific match: ... When the first string match succeeds, no further matches are tried."  The table
+// marks where such a cut can happen with the finish flag of an entry (LRState::sorted_terminals: "The finish flag, if
+// true, indicates that if we already have terminals that matched at this location no further terminals should be tried").
+
+/// recognizer j recognises the text at the cursor
+pub open spec fn hit<'i, TR, TK>(recs: Seq<(&'static TR, TK, bool)>, tail: &'i str, j: int) -> bool {
+    0 <= j < recs.len() && rec_result(recs[j].0, tail) is Some
+}
+/// some recognizer among the first n recognises it
+pub open spec fn any_hit<'i, TR, TK>(recs: Seq<(&'static TR, TK, bool)>, tail: &'i str, n: int) -> bool {
+    exists|j: int| 0 <= j < n && hit(recs, tail, j)
+}
+/// the search is cut after entry k: it is flagged and something has matched so far (itself included)
+pub open spec fn cut_after<'i, TR, TK>(recs: Seq<(&'static TR, TK, bool)>, tail: &'i str, k: int) -> bool {
+    0 <= k < recs.len() && recs[k].2 && any_hit(recs, tail, k + 1)
+}
+/// no cut lies before entry i: entry i is still tried
+pub open spec fn tried<'i, TR, TK>(recs: Seq<(&'static TR, TK, bool)>, tail: &'i str, i: int) -> bool {
+    forall|k: int| 0 <= k < i ==> !cut_after(recs, tail, k)
+}
+/// the entry whose token `next` returns from cursor i: the first entry at or after i that is tried and matches;
+/// recs.len() if there is none
+pub open spec fn next_hit<'i, TR, TK>(recs: Seq<(&'static TR, TK, bool)>, tail: &'i str, i: int) -> int
+    decreases recs.len() - i,
 {
-    if from < 0 || from >= recs.len() { recs.len() as int }
-    else if recs[from].0.v_recognize(tail) is Some { from }
-    else { first_match(recs, tail, from + 1) }
+    if i < 0 || i >= recs.len() || !tried(recs, tail, i) { recs.len() as int }
+    else if hit(recs, tail, i) { i }
+    else { next_hit(recs, tail, i + 1) }
+}
+
+/// C06 "highest terminal priority among the matching ones": once an entry has matched, no entry beyond the next flagged
+/// entry (the end of its priority group) is ever returned
+pub proof fn lemma_no_token_beyond_a_cut<'i, TR, TK>(recs: Seq<(&'static TR, TK, bool)>, tail: &'i str, m: int, f: int, i: int)
+    requires hit(recs, tail, m), m <= f < recs.len(), recs[f].2, 0 <= i,
+    ensures next_hit(recs, tail, i) <= f || next_hit(recs, tail, i) == recs.len(),
+    decreases recs.len() - i,
+{
+    assert(any_hit(recs, tail, f + 1));
+    assert(cut_after(recs, tail, f));
+    if i < recs.len() && tried(recs, tail, i) && !hit(recs, tail, i) {
+        lemma_no_token_beyond_a_cut(recs, tail, m, f, i + 1);
+    }
+    if i > f { assert(!tried(recs, tail, i)); }
 }
 
 //@impl LEX /^impl < 'i , TR , TK > TokenIterator < 'i , TR , TK >/
 //@  fn new ret=r
 //@  |         requires input.index_req(&RangeFrom { start: position.pos }),
-//@  |         ensures r.v_input() == input, r.v_position() == position, r.v_recs() == token_recognizers@, r.v_index() == 0, !r.v_finish(),
+//@  |         ensures r.v_input() == input, r.v_position() == position, r.v_recs() == token_recognizers@, r.v_index() == 0, !r.v_finish(), !r.v_matched(), r.book_ok(),
 //@end
 
-impl<'i, TK, TR> vstd::std_specs::iter::IteratorSpecImpl for TokenIterator<'i, TR, TK> where TR: TokenRecognizer<'i>, TK: Copy {
-    open spec fn obeys_prophetic_iter_laws(&self) -> bool { false }
-    open spec fn remaining(&self) -> Seq<Token<'i, str, TK>> { Seq::empty() }
-    open spec fn will_return_none(&self) -> bool { false }
-    open spec fn decrease(&self) -> Option<nat> { None }
-    open spec fn peek(&self, i: int) -> Option<Token<'i, str, TK>> { None }
-}
-
-//@impl LEX /^impl < 'i , TK , TR > Iterator for TokenIterator < 'i , TR , TK >/
-//@  type Item
-//@  fn next ret=r attr=verifier::loop_isolation(false)
+// <TokenIterator as Iterator>::next reaches Verus through R-LIFT token_next_block: its whole body, verbatim, as the inherent
+// method `next_body` (a trait method implementation cannot declare `requires`).  TokenIterator is private to lexer.rs and only
+// `new` and `next` touch its fields: `new` establishes the precondition `book_ok`, `next_body` preserves it.
+//@lift TNB token_next_block
+//@impl TNB /^impl < 'i , TK , TR > TokenIterator < 'i , TR , TK >/
+//@  fn next_body ret=r attr=verifier::loop_isolation(false)
+//@  |         requires old(self).book_ok(),
 //@  |         ensures
+//@  |             final(self).book_ok(),
 //@  |             final(self).v_input() == old(self).v_input(),
 //@  |             final(self).v_position() == old(self).v_position(),
 //@  |             final(self).v_recs() == old(self).v_recs(),
+//@  |             old(self).v_index() <= final(self).v_index(),
 //@  |             ({
 //@  |                 let recs = old(self).v_recs();
-//@  |                 let j = first_match(recs, old(self).tail(), old(self).v_index() as int);
-//@  |                 if old(self).v_finish() || j >= recs.len() {
-//@  |                     // stop after a matched token flagged finish; or nothing left matches
+//@  |                 let j = next_hit(recs, old(self).tail(), old(self).v_index() as int);
+//@  |                 if j >= recs.len() {
+//@  |                     // nothing that is still tried matches: a cut was reached, or the table is exhausted
 //@  |                     &&& r is None // [C06]
-//@  |                     &&& final(self).v_finish() == old(self).v_finish()
-//@  |                     &&& final(self).v_index() == (if old(self).v_finish() { old(self).v_index() as int } else { recs.len() as int })
 //@  |                 } else {
 //@  |                     &&& r is Some
 //@  |                     &&& (r->0).kind == recs[j].1 // [C06]
-//@  |                     &&& Some((r->0).value) == recs[j].0.v_recognize(old(self).tail()) // [C06,C13]
+//@  |                     &&& Some((r->0).value) == rec_result(recs[j].0, old(self).tail()) // [C06,C13]
 //@  |                     &&& (r->0).span.start == old(self).v_position() // [C13]
 //@  |                     &&& (r->0).span.end == v_position_after((r->0).value, old(self).v_position()) // [C13]
 //@  |                     &&& final(self).v_index() == j + 1 // [C06]
-//@  |                     &&& final(self).v_finish() == recs[j].2 // [C06]
 //@  |                 }
 //@  |             }),
 //@  before 1 "loop {"
 //@  |         proof { use_type_invariant(&*self); }
+//@  |         let ghost recs = self.v_recs();
+//@  |         let ghost tl = self.tail();
 //@  loop 1
 //@  |             invariant
 //@  |                 self.v_index() <= self.v_recs().len(),
 //@  |                 self.v_input() == old(self).v_input(),
 //@  |                 self.v_position() == old(self).v_position(),
-//@  |                 self.v_recs() == old(self).v_recs(),
-//@  |                 self.v_finish() == old(self).v_finish(),
+//@  |                 self.v_recs() == recs, self.tail() == tl, recs == old(self).v_recs(), tl == old(self).tail(),
 //@  |                 old(self).v_index() <= self.v_index(),
-//@  |                 old(self).v_finish() ==> self.v_index() == old(self).v_index(),
-//@  |                 first_match(self.v_recs(), self.tail(), old(self).v_index() as int) == first_match(self.v_recs(), self.tail(), self.v_index() as int),
+//@  |                 self.v_matched() == any_hit(recs, tl, self.v_index() as int),
+//@  |                 self.v_finish() == !tried(recs, tl, self.v_index() as int),
+//@  |                 next_hit(recs, tl, old(self).v_index() as int) == next_hit(recs, tl, self.v_index() as int),
 //@  |             decreases self.v_recs().len() - self.v_index(),
 //@  after 1 "loop {"
 //@  |             proof { use_type_invariant(&*self); }
+//@  |             let ghost i0 = self.v_index() as int;
+//@  after 1 "self.finish = *finish && self.matched;"
+//@  |                 proof {
+//@  |                     // bookkeeping after entry i0 has been tried
+//@  |                     assert(any_hit(recs, tl, i0 + 1) == (any_hit(recs, tl, i0) || hit(recs, tl, i0))) by {
+//@  |                         if any_hit(recs, tl, i0 + 1) { let j = choose|j: int| 0 <= j < i0 + 1 && hit(recs, tl, j); if j < i0 { assert(any_hit(recs, tl, i0)); } }
+//@  |                         if any_hit(recs, tl, i0) { let j = choose|j: int| 0 <= j < i0 && hit(recs, tl, j); assert(0 <= j < i0 + 1 && hit(recs, tl, j)); }
+//@  |                         if hit(recs, tl, i0) { assert(0 <= i0 < i0 + 1 && hit(recs, tl, i0)); }
+//@  |                     }
+//@  |                     assert(tried(recs, tl, i0));
+//@  |                     assert(tried(recs, tl, i0 + 1) == !cut_after(recs, tl, i0)) by {
+//@  |                         if !cut_after(recs, tl, i0) { assert forall|k: int| 0 <= k < i0 + 1 implies !cut_after(recs, tl, k) by { if k < i0 { } } }
+//@  |                     }
+//@  |                 }
 //@end
 
 } // verus!
